@@ -141,7 +141,8 @@ def work_seq(chunk):
 def work_src(chunk):
     """chunk: list of (desc, src) that must be refused."""
     srv = core.worker_server()
-    resps = srv.req_many([{"op": "eval", "src": s} for _, s in chunk])
+    # a description that ends in "nonstrict" is evaluated without strict mode: a missing field is NULL there, a second binding of a name is still refused
+    resps = srv.req_many([dict({"op": "eval", "src": s}, **({"strict": False} if d[-1] == "nonstrict" else {})) for d, s in chunk])
     hist = {}
     viol = []
     for (desc, src), rs in zip(chunk, resps):
@@ -163,7 +164,7 @@ def run(ctx):
     ctx.bounds = {"pool": len(POOL), "sequence_length": maxlen, "reserved_words": len(RESERVED_MANUAL)}
     ctx.rule = ("every ordered sequence of 1..%d statements from a pool of %d interacting statements and every C01-S4 program, each cut at every "
                 "statement boundary (prefix law + reference interpreter on every prefix); %d reserved words x 3 binding positions; 49 pairs of "
-                "binders (let of a value, function, module, tuple; constrained let; two constraint statements) x 3 placements for rebinding. evaluations = eval_string runs; distinct non-trivial = programs with >= 2 statements "
+                "binders (let of a value, function, module, tuple; constrained let; two constraint statements) x 3 placements for rebinding, both in strict and in non-strict mode. evaluations = eval_string runs; distinct non-trivial = programs with >= 2 statements "
                 "(each program text is distinct)." % (maxlen, len(POOL), len(RESERVED_MANUAL)))
     viol = []
     viol2 = []
@@ -185,7 +186,9 @@ def run(ctx):
             yield st
     for part in core.pmap_gen(work_seq, seqs(), chunk=300):
         absorb(part)
-    for part in core.pmap(work_src, list(reserved_programs()) + list(rebind_programs()), chunk=40):
+    both = list(reserved_programs()) + list(rebind_programs())
+    both += [(d + ("nonstrict",), src) for d, src in both]
+    for part in core.pmap(work_src, both, chunk=40):
         absorb(part)
 
     viol.sort(key=lambda v: (len(v[1]), v[1]))
@@ -204,14 +207,14 @@ def run(ctx):
     for desc, src, obs in viol2:
         sig = ":".join(desc)
         ctx.violation(sig, "`%s` is accepted although %s" % (src.replace("\n", " "), "the word is reserved" if desc[0] == "reserved" else "the name is already bound"),
-                      {"kind": "must-fail", "src": src, "observed": obs})
+                      {"kind": "must-fail", "src": src, "observed": obs, "nonstrict": desc[-1] == "nonstrict"})
 
 
 def replay(case):
     srv = core.Server()
     try:
         if case["kind"] == "must-fail":
-            rs = srv.req({"op": "eval", "src": case["src"], "env": "fresh"})
+            rs = srv.req(dict({"op": "eval", "src": case["src"], "env": "fresh"}, **({"strict": False} if case.get("nonstrict") else {})))
             return "err" in rs, {"observed": rs}
         import ast as _ast
         st = _ast.literal_eval(case["ast"])
